@@ -614,38 +614,58 @@ func c17Manager(c *core.Ctx, pkgAny interface{}) {
 	}
 	c.Check(res.OK() && have["healthy"] && have["stopped"] && have["unknown"] && len(names) == 3, "R8", "manager:state-table", fn.Pos(),
 		"m.state = healthy ⇔ running==all; stopped ⇔ ¬that ∧ done==all; unknown otherwise; exactly these three assignments: "+res.Summary(), res.Rows)
-	// healthy latch: close(healthyCh) outside the all-running branch only under !healthyClosed, and followed by healthyClosed = true
-	var closes []an.Call
-	for _, call := range fn.CallsTo(false, "", "close") {
-		if fn.Canon(call.Expr.Args[0]) == "recv.healthyCh" {
-			closes = append(closes, call)
-		}
-	}
+	// healthy latch: every close(healthyCh) in the package is either unreachable once the latch is set, or is the single
+	// unguarded close of the all-running case; each is followed by healthyClosed = true in the same block.
+	// (census over the package, so extracting the guarded close into a helper keeps the rule satisfied)
 	bad := []string{}
-	n := 0
-	for _, cl := range closes {
-		for _, row := range an.Rows([]an.Atom{{Name: "run", Values: []string{"lt", "eq"}}, {Name: "latched", Values: []string{"T", "F"}}}) {
-			t.Binder.Row = row
-			t.Binder.Unknown = nil
-			ex := g.Exec(g.EntryLoc(), []an.Loc{g.Locate(cl.Expr)}, t.Binder.Leaf, an.ExecOpts{})
-			n++
-			if row["run"] != "eq" && row["latched"] == "T" && ex.May[0] {
-				bad = append(bad, c.Prog.PosStr(cl.Expr.Pos())+": healthyCh can be closed although the latch is already closed")
+	n, guarded, unguarded := 0, 0, 0
+	for _, f := range an.Funcs(pkg) {
+		for _, lf := range append([]*an.Fn{f}, f.AllLits()...) {
+			lg := lf.Graph()
+			for _, cl := range lf.CallsTo(false, "", "close") {
+				if lf.Canon(cl.Expr.Args[0]) != "recv.healthyCh" {
+					continue
+				}
+				n++
+				bdl := &an.Binder{Fn: lf, Bool: map[string]string{"recv.healthyClosed": "latched"}, Row: an.Row{"latched": "T"}}
+				ex := lg.Exec(lg.EntryLoc(), []an.Loc{lg.Locate(cl.Expr)}, bdl.Leaf, an.ExecOpts{})
+				if ex.May[0] {
+					unguarded++
+					if lf.Name != "(*Manager).serviceStateChanged" {
+						bad = append(bad, c.Prog.PosStr(cl.Expr.Pos())+": healthyCh can be closed although the latch is already set")
+					}
+				} else {
+					guarded++
+				}
+				loc := lg.Locate(cl.Expr)
+				set := false
+				for i := loc.I; i < len(loc.B.Nodes); i++ {
+					if as, ok := loc.B.Nodes[i].(*ast.AssignStmt); ok && len(as.Lhs) == 1 && lf.Canon(as.Lhs[0]) == "recv.healthyClosed" && lf.Canon(as.Rhs[0]) == "true" {
+						set = true
+					}
+				}
+				if !set {
+					bad = append(bad, c.Prog.PosStr(cl.Expr.Pos())+": close(healthyCh) not followed by healthyClosed = true")
+				}
 			}
-		}
-		// followed by latch = true in the same block
-		loc := g.Locate(cl.Expr)
-		set := false
-		for i := loc.I; i < len(loc.B.Nodes); i++ {
-			if as, ok := loc.B.Nodes[i].(*ast.AssignStmt); ok && len(as.Lhs) == 1 && fn.Canon(as.Lhs[0]) == "recv.healthyClosed" && fn.Canon(as.Rhs[0]) == "true" {
-				set = true
-			}
-		}
-		if !set {
-			bad = append(bad, c.Prog.PosStr(cl.Expr.Pos())+": close(healthyCh) not followed by healthyClosed = true")
 		}
 	}
-	c.Check(len(bad) == 0 && len(closes) >= 2, "R8", "manager:healthy-latch", fn.Pos(), fmt.Sprintf("%d close(healthyCh) sites: guarded by the latch outside the all-running case and each sets the latch; %v", len(closes), bad), n)
+	// the unguarded site must be reachable only in the all-running case
+	if unguarded == 1 {
+		for _, cl := range fn.CallsTo(false, "", "close") {
+			if fn.Canon(cl.Expr.Args[0]) != "recv.healthyCh" {
+				continue
+			}
+			t.Binder.Row = an.Row{"run": "lt", "done": "lt", "latched": "T", "done0": "gt", "stop0": "gt"}
+			ex1 := g.Exec(g.EntryLoc(), []an.Loc{g.Locate(cl.Expr)}, t.Binder.Leaf, an.ExecOpts{})
+			t.Binder.Row = an.Row{"run": "lt", "done": "eq", "latched": "T", "done0": "gt", "stop0": "gt"}
+			ex2 := g.Exec(g.EntryLoc(), []an.Loc{g.Locate(cl.Expr)}, t.Binder.Leaf, an.ExecOpts{})
+			if ex1.May[0] || ex2.May[0] {
+				bad = append(bad, c.Prog.PosStr(cl.Expr.Pos())+": unguarded close reachable outside the all-running case with the latch set")
+			}
+		}
+	}
+	c.Check(len(bad) == 0 && n >= 2 && guarded >= 1 && unguarded <= 1, "R8", "manager:healthy-latch", fn.Pos(), fmt.Sprintf("%d close(healthyCh) sites in the package: %d unreachable once the latch is set, %d unguarded (the all-running case); each sets the latch; %v", n, guarded, unguarded, bad), n*2)
 	// lock
 	c.Check(lockedThroughout(fn, "recv.mu"), "R8", "manager:lock", fn.Pos(), "serviceStateChanged runs under m.mu from first to last statement", 1)
 }
